@@ -749,6 +749,22 @@ void DOMRangeImpl::insertNode(DOMNode* newNode)
         //set 'parent' and 'next' here
         parent = fStartContainer->getParentNode();
 
+        // what insertBefore() is going to refuse must be refused before the
+        // text is split: an operation that raises must not change the tree
+        if (parent != 0) {
+            if (newNode->getNodeType() == DOMNode::DOCUMENT_FRAGMENT_NODE) {
+                for (DOMNode* kid = newNode->getFirstChild(); kid != 0; kid = kid->getNextSibling()) {
+                    if (!DOMDocumentImpl::isKidOK(parent, kid))
+                        throw DOMException(
+                            DOMException::HIERARCHY_REQUEST_ERR, 0, fMemoryManager);
+                }
+            }
+            else if (!DOMDocumentImpl::isKidOK(parent, newNode)) {
+                throw DOMException(
+                    DOMException::HIERARCHY_REQUEST_ERR, 0, fMemoryManager);
+            }
+        }
+
         //split the text nodes
        if (fStartOffset > 0) {
            if (type == DOMNode::COMMENT_NODE)
